@@ -22,7 +22,7 @@ MANIFEST = {
 RULE = ("generated class files C<i>.gox: 0..5 (thorough ..10) field specs over int,string,float64,bool,[]int,[]string,map[string]int, multi-name "
         "specs, embedded Base, pointer-embedded *Inner, pointer-embedded package type *strings.Replacer, *Base field, struct tags; optional "
         "import/const/type declarations before the var block, optional later var block (globals), no var block, var block after a function, "
-        "repeated field name; 1..4 methods with int/string parameters and results whose bodies read/update fields through bare names and "
+        "repeated field name, members named like predeclared identifiers (min,len,println,string,nil,...) used bare; 1..4 methods with int/string parameters and results whose bodies read/update fields through bare names and "
         "through this (random per occurrence), call earlier methods, append/map-set/len, if; main.xgo builds each class with new / keyed "
         "composite literals, calls every method twice and prints all fields; non-trivial = distinct class description")
 
@@ -36,9 +36,25 @@ def canon(line):
     return line
 
 
+# Known findings whose probe input is run on EVERY run.  If one of them stops failing the same way
+# the tree changed there: information only (a NOTE, never a violation) - the generated cases, not
+# the fixed probe, are what guards the behaviour.
+PROBES = ['member-captures-builtin']
+
+
+def post(ctx, outdir, dis):
+    hit = {k for k, _ in ctx.known_hit}
+    for k in PROBES:
+        if k in ctx.known and k not in hit:
+            msg = ("NOTE: property=C11 known finding key=%s: its fixed probe input no longer fails the same way "
+                   "on this tree (information only)") % k
+            print(msg)
+            ctx.notes.append(msg)
+
+
 def run(ctx):
     ctx.assumptions += [
         "types of fields are compared as text (types.TypeString vs the text written in the class file)",
         "the explicit form is produced by the generator from the same abstract description (this.x for every member reference)",
     ]
-    common.standard(ctx, "GopModel.Props.C11", "c11", 80, 600, RULE, driver="drv_compc", canon=canon)
+    common.standard(ctx, "GopModel.Props.C11", "c11", 80, 600, RULE, driver="drv_compc", canon=canon, post=post)
